@@ -69,9 +69,14 @@ HIERARCHY_MAPPER = {'class': 'CCN_class', 'subclass': 'CCN_subclass',
 
 
 def tree_data(with_names=True, drop=None, flat=False, hmap=False,
-              shared_label=False, childless=False):
+              shared_label=False, childless=False, slash=False):
     d = json.loads(json.dumps(TREE))
     nm = json.loads(json.dumps(NAME_MAPPER))
+    if slash:
+        # a node label with the separator of the marker-table keys in it
+        # (as in "L2/3 IT")
+        d['class']['cls/B'] = d['class'].pop('clsB')
+        nm['class']['cls/B'] = nm['class'].pop('clsB')
     if childless:
         # an inner node without children (the validator accepts it)
         d['class']['clsZ'] = []
@@ -149,14 +154,14 @@ class Inputs:
     """input files of one job (never modified by a correct run)"""
 
     def __init__(self, with_names=True, hmap=False, shared_label=False,
-                 childless=False):
+                 childless=False, slash=False):
         root = sandbox_root()
         self.dir = os.path.join(root, 'inputs')
         shutil.rmtree(self.dir, ignore_errors=True)
         os.makedirs(self.dir)
         self.tree = tree_data(with_names, hmap=hmap,
                               shared_label=shared_label,
-                              childless=childless)
+                              childless=childless, slash=slash)
         self.shared_label = shared_label
         self.stats = os.path.join(self.dir, 'reference_stats.h5')
         write_stats(self.stats, self.tree)
@@ -164,6 +169,9 @@ class Inputs:
         mk = dict(MARKERS)
         if shared_label:
             mk['subclass/c2'] = mk.pop('subclass/subB')
+        if slash:
+            mk['class/cls/B'] = mk.pop('class/clsB')
+        self.marker_table = mk
         json.dump(mk, open(self.markers, 'w'))
         self.queries = {}
 
